@@ -158,6 +158,9 @@ func checkC14(c *Ctx) Meta {
 	// lock identity: the per-instance argument above is only valid if a lock-carrying object is never
 	// copied by value (the copy gets its own mutex but shares the maps and pointers)
 	c.Rule("C14-COPY", "objects of the lock-carrying shared types (KeystoreManagerForPoC, AddrManager) are never copied by value anywhere in the repository", 1)
+	c.Rule("C14-PAIR", "every lock taken explicitly in the wallet is released on every path (deferred, or an Unlock before each return); manager methods never call other lock-taking manager methods (no stale snapshots between two critical sections, no self-deadlock)", 30)
+	checkLockPairing(c, "C14-PAIR", []string{pkgKeystore})
+	checkNoNestedPublicCalls(c, "C14-PAIR")
 	lockCarrying := map[string]bool{tKMC: true, tAddrMgr: true}
 	nCopy := 0
 	var cfns []*ssa.Function
